@@ -172,9 +172,17 @@ def _generator_fn(tree, repo):
 
 custom("kernel_generator", "src/core_codemods/use_generator.py", _KPROPS, "generator_cfg_v", "generator_cfg", "repaired_generator",
        _generator_fn, doc="UseGenerator.leave_Call: which calls are rewritten, what the new argument list is, what is returned otherwise")
-custom("kernel_set_literal", "src/core_codemods/use_set_literal.py", _KPROPS, "set_literal_recognised", "bool", "true",
-       _known("kernel_set_literal", "UseSetLiteral", ["leave_Call"], []),
-       doc="UseSetLiteral.leave_Call")
+def _set_literal_fn(tree, repo):
+    # FStringSpaced: leave_FormattedStringExpression puts a space before a display that became the expression of a replacement
+    # field (f"{{1, 2}}" would be an escaped brace); Known: the pinned form and the starred-argument repair, without it
+    v = _variant("kernel_set_literal", tree, "UseSetLiteral", ["leave_Call", "leave_FormattedStringExpression"], [])
+    return {"Known": "false", "FStringSpaced": "true"}[v]
+
+
+custom("kernel_set_literal", "src/core_codemods/use_set_literal.py", _KPROPS, "set_literal_fstring_spaced", "bool", "true", _set_literal_fn,
+       doc="UseSetLiteral.leave_Call (+ leave_FormattedStringExpression: is a display kept apart from the brace of an f-string field?)")
+
+
 def _hasattr_fn(tree, repo):
     v = _variant("kernel_hasattr", tree, "TransformFixHasattrCall", ["on_result_found"], ["detector_pattern"])
     return {"Pinned": "pinned_hasattr", "Repaired": "repaired_hasattr"}[v]
